@@ -40,6 +40,26 @@ def execute(xs, pal, op, d, method):
     return rec
 
 
+def execute_after_write(xs, pal, op, d, method, i, c):
+    """call, write element i := c in place, call again: the second result is judged against the edited vector"""
+    rec = {"xs": list(xs), "op": op, "dir": d, "method": method, "out": [], "err": ""}
+    try:
+        v = pal.vector(xs)
+        f = (lambda: v.sort(dir=d)) if op == "sort" else (lambda: v.unique()) if op == "unique" else (lambda: v.rank(method=method))
+        f()
+        v[i] = pal.value(c)
+        rec["xs"] = pal.alpha_seq(np.asarray(v))            # what the vector holds now
+        out = f()
+        if op == "rank":
+            o = np.asarray(out)
+            rec["out"] = [int(x) if float(x) == int(x) else gamma.ALIEN for x in o.tolist()]
+        else:
+            rec["out"] = pal.alpha_seq(out)
+    except Exception as e:
+        rec["err"] = type(e).__name__ + ": " + str(e)[:80]
+    return rec
+
+
 def sig_of(rec, pal):
     xs = rec["xs"]
     return {"op": rec["op"], "arg": rec["method"] or rec["dir"], "kind": pal.kind, "palette": pal.name,
@@ -60,6 +80,22 @@ def run_cases(ctx, seqs, palettes):
                 meta.append(pal)
                 nontriv = len(xs) >= 2 and (NA in xs or len(set(c // 2 for c in xs)) < len(xs))
                 ctx.count((tuple(xs), pal.name, op, d, m), nontriv)
+    # multi-step: the same call before and after an in-place element write (memoised orderings must not survive it)
+    rng = ctx.rng
+    for xs in seqs:
+        if len(xs) < 2:
+            continue
+        for pal in palettes:
+            if not pal.supports(xs) or pal is gamma.STR_FIXED or rng.random() < 0.6:
+                continue
+            i = rng.randrange(len(xs))
+            c = rng.choice([x for x in (0, 2, 4) if pal.supports([x])] or [0])
+            if pal.kind == "int" and NA in xs:
+                continue
+            op, d, m = rng.choice(CALLS)
+            records.append(execute_after_write(xs, pal, op, d, m, i, c))
+            meta.append(pal)
+            ctx.count((tuple(xs), pal.name, op, d, m, "after-write", i, c), True)
     bad = ctx.validate("VectorOpsTrace", records)
     for i, clause in bad:
         rec, pal = records[i], meta[i]
